@@ -4,6 +4,7 @@ package main
 
 import (
 	"encoding/json"
+	"fmt"
 	"io"
 	"math"
 	"math/big"
@@ -327,9 +328,102 @@ func fitReplay(in io.Reader, raw bool, args []string) (*Summary, error) {
 						break
 					}
 				}
+				// a long life: the curve drawn on a fine grid (several hundred distinct queries on ONE smoother), then the
+				// first, some middle and the last points asked again - still what a fresh smoother returns
+				fitLong++
+				if fitLong%7 == 1 {
+					g := fit.LOESS(px, py, fc.Deg, span)
+					const grid = 400
+					at := func(k int) float64 { return lo + (hi-lo)*float64(k)/(grid-1) }
+					first := g(at(0))
+					for k := 1; k < grid; k++ {
+						g(at(k))
+					}
+					sum.Checks++
+					for _, k := range []int{0, 1, 2, 57, 128, 129, 200, 271, 272, 398, 399} {
+						a, b := g(at(k)), fit.LOESS(px, py, fc.Deg, span)(at(k))
+						if a != b && !(math.IsNaN(a) && math.IsNaN(b)) {
+							sum.viol("LOESS-query-order", c, "LOESS(deg %d, span %v): after %d distinct queries the smoother returns %.15g at grid point %d (%v), a fresh one %.15g (its own first answer there: %.15g)", fc.Deg, span, grid, a, k, at(k), b, first)
+							break
+						}
+					}
+				}
 			}
 		}
 	})
+	fitLarge(sum)
 	sum.note("worst_error_over_tolerance", fitWorst)
 	return sum, err
+}
+
+var fitLong int
+
+// fitLarge: many observations in one call (sizes around and beyond 1024, 2048, 4096: past any block size of an accumulation
+// loop).  The data lie exactly on 1 - 2x + x^2/2 over [-2,2] (every value a dyadic rational), so the fit must return these
+// coefficients; with a deterministic disturbance added, the weighted residual must be orthogonal to every basis function.
+func fitLarge(sum *Summary) {
+	for _, n := range []int{257, 1023, 1024, 1025, 1500, 2047, 2049, 3000, 4097, 5000} {
+		xs, ys, ws, yn := make([]float64, n), make([]float64, n), make([]float64, n), make([]float64, n)
+		for i := range xs {
+			x := -2 + 4*float64(i)/float64(n-1)
+			xs[i] = x
+			ys[i] = 1 - 2*x + 0.5*x*x
+			ws[i] = 0.5 + float64((i*7919)%13)/8
+			yn[i] = ys[i] + 0.25*math.Sin(float64(i)*0.7)
+		}
+		c := json.RawMessage(fmt.Sprintf(`{"large":%d}`, n))
+		for wi, w := range [][]float64{nil, ws} {
+			sum.Checks++
+			func() {
+				defer func() {
+					if r := recover(); r != nil {
+						sum.viol("panic", c, "n=%d: panic: %v", n, r)
+					}
+				}()
+				pr := fit.PolynomialRegression(xs, ys, w, 2)
+				want := []float64{1, -2, 0.5}
+				for j := range want {
+					if len(pr.Coefficients) != 3 || math.Abs(pr.Coefficients[j]-want[j]) > 1e-8 {
+						sum.viol("PolynomialRegression-large", c, "%d observations on 1 - 2x + x^2/2 (weights: %v): coefficients %v", n, wi == 1, pr.Coefficients)
+						break
+					}
+				}
+				terms := []func(xs, termOut []float64){
+					func(xs, out []float64) {
+						for i := range xs {
+							out[i] = 1
+						}
+					},
+					func(xs, out []float64) { copy(out, xs) },
+					func(xs, out []float64) {
+						for i, x := range xs {
+							out[i] = math.Cos(x)
+						}
+					},
+				}
+				co := fit.LinearLeastSquares(xs, yn, w, terms...)
+				if len(co) != 3 {
+					sum.viol("LinearLeastSquares-large", c, "%d observations: %d coefficients", n, len(co))
+					return
+				}
+				out := make([]float64, n)
+				for j, t := range terms {
+					t(xs, out)
+					dot, scale := 0.0, 0.0
+					for i := range xs {
+						r := yn[i] - (co[0] + co[1]*xs[i] + co[2]*math.Cos(xs[i]))
+						wv := 1.0
+						if w != nil {
+							wv = w[i]
+						}
+						dot += wv * r * out[i]
+						scale += wv * math.Abs(r*out[i])
+					}
+					if math.Abs(dot) > 1e-8*scale {
+						sum.viol("LinearLeastSquares-large", c, "%d observations (weights: %v): the weighted residual is not orthogonal to basis function %d: sum w r phi = %.6g against %.6g", n, wi == 1, j, dot, scale)
+					}
+				}
+			}()
+		}
+	}
 }
